@@ -13,9 +13,12 @@ Answer: one record per step joined by `|`:
   heap=<caller's objects after the step>
   p=<result of the model of the PINNED tree (Quirks.pinned) in the same history>
 results: items joined by `,` — i<int> b<0|1> d<loc>@<tz|n> u<seconds> f<arity> ; `()` empty; ERR:<kind>
+Lines starting with `FC ` (focus fragment: constructors under `!` / for / predicates) are answered by
+`EPV.FocusCtor.answerFC` (protocol in EPV/Model/FocusCtorDriver.lean).
 -/
 import EPV.Proto
 import EPV.Spec.LexicalSem
+import EPV.Model.FocusCtorDriver
 open EPV.Proto EPV.Scope
 
 partial def parseE : List String → Option (Expr × List String)
@@ -136,4 +139,7 @@ def answer (line : String) : String :=
         "|".intercalate recs
       | _ => "bad-expr"
 
-def main : IO Unit := mainLoop answer
+def answerAll (line : String) : String :=
+  if line.startsWith "FC " then EPV.FocusCtor.answerFC line else answer line
+
+def main : IO Unit := mainLoop answerAll
